@@ -1,4 +1,5 @@
 """C16 — each destination rule owns one outgoing connection, replaced/removed on command"""
+import concurrent.futures
 import vlib
 from vlib import hx, unhx
 
@@ -14,6 +15,15 @@ RULE = ("sequences of <=12 rule operations (add / replace / identical re-add / d
         "dump of the listing, the client map and the hub registrations; every rule change is followed by `await` barriers "
         "(socket counts per destination) and mostly by a broadcast the superseded version was subscribed to; a case is "
         "non-trivial when it has a replace or delete of a live rule followed by a broadcast that some socket received; "
+        "plus BACK-OFF scenarios (quick 18, thorough 200; about one general case in eight ends with such a tail): 1-3 rules whose "
+        "destination is down -- nothing listening on its own port, or refusing the upgrade, from the start or going down after the "
+        "rule connected, two ids may share it -- so that their clients sit in the 1st (2nd, thorough: 3rd) back-off sleep of "
+        "1 s / 2 s / 4 s, optionally with a message queued for them; each is then deleted / replaced by a rule to another (up or "
+        "down) or the same destination / deleted by listing position / removed by deleteAll / kept (control) in random order, "
+        "next to 0-2 bystander rules; the old destinations come up right afterwards (most of them), `idle` lets the pending "
+        "back-off run out, and the recording destinations say what they saw: no connection and no message at a destination "
+        "whose rule was removed, exactly one socket per rule in force; such a case is non-trivial when a destination came up "
+        "after its rule was removed while it was down and the back-off time was waited out; "
         "distinct = distinct op sequence")
 ASSUMPTIONS = [
     "agg.Hub and the inner hub.Hub are running and take every hand-off (rwc.Hub.Run blocks otherwise); aggregation rules are static during a case",
@@ -21,13 +31,16 @@ ASSUMPTIONS = [
     "rule Token and File are empty (Reconnect path, no file writing); destinations are well-formed ws:// URLs",
     "message loss by the hubs' non-blocking sends is outside this property: the harness paces messages and re-sends (<=3x) before it reports a live socket as not served",
     "`promptly` = the old socket is seen closed by the destination server within 2 s of the operation being applied",
+    "back-off of a rule's client as configured by reconws.New (1 s, factor 2, at most 10 s, no jitter): the scenarios wait 1.1 s / 2 s / "
+    "4.1 s after the destination came up for a dial that was pending when the rule was removed; a rule still in force is given 12 s to connect",
 ]
 
 P = "Relay.Props.C16"
 THEOREMS = [(f"Rwc.{n}", P) for n in
             ["one_live_per_id", "no_orphans", "hub_refines_cell", "live_is_latest_rule", "nothing_live_after_delete",
              "live_matches_rule", "nothing_after_supersede", "received_sub", "others_keep_flowing", "listing_exact",
-             "reserved_id_unreachable", "id_taken_verbatim", "delete_taken_verbatim", "step_inv"]]
+             "reserved_id_unreachable", "id_taken_verbatim", "delete_taken_verbatim", "step_inv",
+             "cancelled_never_dials", "superseded_never_connects", "accepts_count_dials", "idle_is_silent"]]
 
 CFG = {"stream/a": ["fa"], "stream/b": ["fa", "fb"]}
 RESERVED = "deleteAll"
@@ -159,6 +172,7 @@ def parse(line):
     if k == "add" and len(f) == 4 and all(map(ishex, f[1:])): return f
     if k in ("del", "down", "up", "drop") and len(f) == 2 and ishex(f[1]): return f
     if k == "dell" and len(f) == 2 and 1 <= len(f[1]) <= 6 and all(c in "0123456789" for c in f[1]): return f
+    if k == "idle" and len(f) == 2 and 1 <= len(f[1]) <= 5 and all(c in "0123456789" for c in f[1]): return f
     if k == "await" and (len(f) == 4 or (len(f) == 5 and f[4] == "slow")) and ishex(f[1]): return f
     if k == "bcast" and len(f) == 5 and f[2] == "ext" and ishex(f[1]) and ishex(f[3]): return f
     if k == "bcast" and len(f) == 6 and f[2] == "as" and ishex(f[1]) and ishex(f[3]) and ishex(f[4]): return f
@@ -307,6 +321,127 @@ class RwcMode(vlib.Mode):
                     out.append(f"up {d}"); ref.set_up(d); await_(d, slow=True)
             else:
                 out.append(rng.choice(["rules", "conns"]))
+        orphaned = [d for d in sorted(ref.down) if ref.live_on(d) == 0 and ref.acc.get(d, 0) == 0 and s(d).startswith("dn")]
+        if orphaned and rng.random() < 0.6:
+            # destinations that were down all along and whose rule is gone come up: the removed rule's client may still be
+            # in a back-off sleep (how deep depends on how long the case took so far)
+            for d in orphaned:
+                out.append(f"up {d}"); ref.set_up(d)
+            out.append(f"idle {rng.choice([1100, 1100, 2100])}")
+            for d in orphaned:
+                await_(d)
+        for t in rng.sample(["fa", "fb", "plain", "p2"], 2):
+            bcast(t)
+        out += ["rules", "conns"]
+        return out
+
+    def gen_backoff_case(self, rng, tier, depth):
+        """rules removed / replaced while their client sits in its depth-th back-off sleep; the old destination comes up
+        before that sleep ends"""
+        ref = Ref()
+        out = []
+        plain, odd = case_ids(rng)
+        pool = plain + odd[:1]
+        rng.shuffle(pool)
+        nv = min(rng.choice([1, 2, 2, 3]), len(pool))
+        vids, bids = pool[:nv], pool[nv:nv + rng.choice([0, 1, 1, 2])]
+        ver = [0]
+
+        def await_(d, slow=False):
+            out.append(f"await {d} {ref.open_n(d)} {ref.acc.get(d, 0)}" + (" slow" if slow else ""))
+
+        def bcast(topic):
+            t = hx(topic)
+            out.append(f"bcast {t} ext {hx('m')} {len(ref.rx(t, None))}")
+
+        def stream():
+            return hx(rng.choice(["stream/a", "stream/b", "plain", "plain", "p2"]))
+
+        # --- setup: bystanders connect; victims end up in the back-off sleep after a failed dial
+        setup = [("v", i) for i in vids] + [("b", i) for i in bids]
+        rng.shuffle(setup)
+        victims = []          # (id hex, old destination)
+        for kind, i in setup:
+            ih, st = hx(i), stream()
+            ver[0] += 1
+            if kind == "b":
+                d = hx(f"by{ver[0]}")
+                out.append(f"add {ih} {st} {d}"); ref.add(ih, st, d); await_(d)
+                continue
+            how = rng.choice(["closed", "closed", "refuse", "later", "later"])
+            if victims and rng.random() < 0.15:
+                d = victims[-1][1]                                   # two ids, one destination that is down
+                how = "shared"
+            else:
+                own = how == "closed" or (how == "later" and rng.random() < 0.6)
+                d = hx(("pt" if own else "dn") + str(ver[0]))        # pt*: a port of its own, nothing listening while down
+            if how in ("closed", "refuse"):
+                out.append(f"down {d}"); ref.set_down(d)
+            out.append(f"add {ih} {st} {d}"); ref.add(ih, st, d); await_(d)
+            if how == "later":
+                if rng.random() < 0.5:
+                    bcast(rng.choice(topics_of(s(st)) or ["plain"]))
+                out.append(f"down {d}"); ref.set_down(d); await_(d)
+            victims.append((ih, d))
+        # --- messages that stay queued in the clients of the down destinations
+        for ih, d in victims:
+            if rng.random() < 0.6:
+                ts = topics_of(s(ref.rules[ih][0]))
+                if ts: bcast(rng.choice(ts))
+        # --- deeper back-off: 1 s (and 2 s) sleeps run out, the next dial fails as well
+        out.append(f"idle {[40, 1100, 3150][depth - 1]}")               # (depth 1: the first dial has failed by now)
+        # --- the rules are removed / replaced while their clients sleep
+        order = list(victims)
+        rng.shuffle(order)
+        newdown = []
+        for ih, d in order:
+            if ih not in ref.rules:
+                continue                                             # gone with a deleteAll
+            act = rng.choices(["del", "replace-up", "replace-same", "replace-down", "dell", "delall", "keep"],
+                              weights=[30, 25, 8, 7, 10, 8, 12])[0]
+            olds = [ref.rules[ih][1]]
+            if act == "del":
+                out.append(f"del {ih}"); ref.delete(ih)
+            elif act == "dell":
+                listed = sorted(ref.rules)
+                out.append(f"dell {listed.index(ih) + len(listed) * rng.randrange(3)}"); ref.delete(ih)
+            elif act == "delall":
+                olds = sorted({dd for (_, dd) in ref.rules.values()})
+                out.append(f"del {hx(RESERVED)}"); ref.delete(hx(RESERVED))
+            elif act.startswith("replace"):
+                ver[0] += 1
+                st = stream() if rng.random() < 0.6 else ref.rules[ih][0]
+                if act == "replace-up":
+                    nd = hx(f"nw{ver[0]}")
+                elif act == "replace-same":
+                    nd = d
+                else:
+                    nd = hx(rng.choice(["pt", "dn"]) + str(ver[0]))
+                    out.append(f"down {nd}"); ref.set_down(nd); newdown.append(nd)
+                out.append(f"add {ih} {st} {nd}"); ref.add(ih, st, nd)
+                if nd != d: await_(nd)
+            else:
+                continue
+            for od in olds:
+                await_(od)
+        # --- the old destinations come up again, well before the pending sleep ends
+        ups = [d for d in dict.fromkeys(d for _, d in victims) if rng.random() < 0.9]
+        ups += [d for d in newdown if rng.random() < 0.5]
+        rng.shuffle(ups)
+        for d in ups:
+            out.append(f"up {d}"); ref.set_up(d)
+        # the others keep flowing meanwhile (on a topic no rule subscribes to whose own reconnect is still pending: the
+        # reference takes a destination that came up as connected, which is only so once the `await ... slow` below returned)
+        pending = {d for d in ups if ref.live_on(d) > 0}
+        busy = {t for (st, d) in ref.rules.values() if d in pending for t in topics_of(s(st))}
+        livet = sorted({t for (st, _) in ref.rules.values() for t in topics_of(s(st))} - busy)
+        if livet and rng.random() < 0.7:
+            bcast(rng.choice(livet))
+        out.append(f"idle {[1100, 2000, 4100][depth - 1]}")
+        # --- what did the destinations see?  (a rule in force whose destination came up connects when ITS sleep ends)
+        every = list(dict.fromkeys([d for _, d in victims] + newdown + sorted({d for (_, d) in ref.rules.values()})))
+        for d in every:
+            await_(d, slow=ref.open_n(d) > 0)
         for t in rng.sample(["fa", "fb", "plain", "p2"], 2):
             bcast(t)
         out += ["rules", "conns"]
@@ -321,10 +456,39 @@ class RwcMode(vlib.Mode):
             if k % 16 == 7:   # a malformed stream mixed in
                 junk = ["frob", "add 7231", "add 7 7 7", "del", "bcast 6661 ext", "await zz 0 0", "inject 6431 6d", "add 72 zz 64",
                         "dell", "dell -1", "dell 1x", "dell 6b", "dell 1234567", "dell +1", "dell 1 2"]
+                junk += ["idle", "idle x", "idle -5", "idle 123456", "idle 10 10", "idle 6d"]
                 for _ in range(2):
                     case.insert(rng.randrange(len(case)), rng.choice(junk))
             cases.append(case)
+        # back-off scenarios: quick 14 in the first sleep (1 s) + 4 in the second (2 s); thorough also the third (4 s)
+        depths = [1] * 14 + [2] * 4 if tier == "quick" else [1] * 120 + [2] * 60 + [3] * 20
+        for depth in depths:
+            cases.append(self.gen_backoff_case(rng, tier, depth))
         return cases
+
+    # ------------------------------------------------------------------ running the implementation
+    PAR = 4
+
+    def run_impl(self, impl_exe, cases, tier):
+        """cases are independent (every harness process has its own loopback ports): the waiting in them is spent in
+        PAR processes side by side, longest first"""
+        args = [impl_exe, self.impl_mode] + list(self.impl_args)
+        if len(cases) < 2 * self.PAR:
+            return vlib.run_cases_isolating(args, cases, timeout=self.timeout(tier), env=vlib.GOENV)
+        def cost(c):
+            return sum(int(l.split()[1]) if l.startswith("idle ") and parse(l) else 60 for l in c)
+        bins = [[0, []] for _ in range(self.PAR)]
+        for i in sorted(range(len(cases)), key=lambda i: -cost(cases[i])):
+            b = min(bins, key=lambda b: b[0])
+            b[0] += cost(cases[i]); b[1].append(i)
+        outs = [None] * len(cases)
+        with concurrent.futures.ThreadPoolExecutor(self.PAR) as ex:
+            futs = [(b[1], ex.submit(vlib.run_cases_isolating, args, [cases[i] for i in b[1]], self.timeout(tier), vlib.GOENV))
+                    for b in bins if b[1]]
+            for idx, fu in futs:
+                for i, o in zip(idx, fu.result()):
+                    outs[i] = o
+        return outs
 
     # ------------------------------------------------------------------ oracle
     def oracle(self, case, out):
@@ -365,18 +529,30 @@ class RwcMode(vlib.Mode):
                     else:
                         if got != "none": ref.delete(got)
                 elif k == "down": ref.set_down(f[1])
-                elif k == "up": ref.set_up(f[1])
+                elif k == "up":
+                    if o == "port-lost":
+                        fails.append(("harness-port-lost", f"{l}: the harness could not listen on the destination's port again (environment)")); break
+                    ref.set_up(f[1])
                 elif k == "drop": ref.drop(f[1])
+                elif k == "idle":
+                    if o != "ok":
+                        fails.append(("bad-output", f"{l} -> {o}")); break
                 elif k == "await":
                     kv = dict(x.split("=") for x in o.split())
                     n, t = int(kv["n"]), int(kv["t"])
                     en, et = ref.open_n(f[1]), ref.acc.get(f[1], 0)
+                    carried = (f"; {kv['last']} message(s) came in over the most recent of them" if kv.get("last", "0") != "0" else "")
                     if n > en:
                         fails.append(("stale-or-extra-connection", f"{n} socket(s) open to {s(f[1])!r} 2 s after the change, the rules in force own {en}"))
                     elif n < en:
                         fails.append(("connection-missing", f"{n} socket(s) open to {s(f[1])!r}, the rules in force own {en}"))
+                    elif t > et and ref.live_on(f[1]) == 0:
+                        fails.append(("connection-from-removed-rule", f"destination {s(f[1])!r} has no rule in force, yet it accepted {t - et} "
+                                      f"connection(s) after its rule was deleted / replaced ({t} accepted so far, {et} by rules in force at "
+                                      f"the time){carried}"))
                     elif t != et:
-                        fails.append(("unexpected-reconnect", f"{t} connections accepted by {s(f[1])!r} so far, expected {et}"))
+                        fails.append(("unexpected-reconnect", f"{t} connections accepted by {s(f[1])!r} so far, expected {et} "
+                                      f"({ref.live_on(f[1])} rule(s) in force own it){carried}"))
                 elif k in ("bcast", "inject"):
                     got = ms(o.split("=", 1)[1])
                     exp = ref.inject(f[1]) if k == "inject" else ref.rx(f[1], f[3] if f[2] == "as" else None)
@@ -415,18 +591,33 @@ class RwcMode(vlib.Mode):
     def nontrivial(self, case, out):
         ref = Ref()
         superseded = False
+        lost_while_down = set()      # destinations that lost a rule while they were down
+        revived = False              # ... and came up afterwards
         for l, o in zip(case, out):
             f = parse(l)
             if f is None: continue
+            before = {d for (_, d) in ref.rules.values()}
             if f[0] == "add":
                 superseded |= f[1] in ref.rules
+                old = ref.rules.get(f[1])
                 ref.add(f[1], f[2], f[3])
+                if old is not None and s(f[1]) != RESERVED and old[1] in ref.down: lost_while_down.add(old[1])
             elif f[0] == "del":
                 superseded |= (f[1] in ref.rules) or (s(f[1]) == "deleteAll" and bool(ref.rules))
+                gone = [r[1] for r in ref.rules.values()] if s(f[1]) == RESERVED else [r[1] for i, r in ref.rules.items() if i == f[1]]
                 ref.delete(f[1])
+                lost_while_down |= {d for d in gone if d in ref.down}
             elif f[0] == "dell" and o.startswith("deleted=") and o != "deleted=none":
                 superseded |= o[8:] in ref.rules
-                if o[8:] != hx(RESERVED): ref.delete(o[8:])
+                if o[8:] != hx(RESERVED):
+                    if o[8:] in ref.rules and ref.rules[o[8:]][1] in ref.down: lost_while_down.add(ref.rules[o[8:]][1])
+                    ref.delete(o[8:])
+            elif f[0] == "down": ref.set_down(f[1])
+            elif f[0] == "up":
+                revived |= f[1] in lost_while_down and f[1] in ref.down
+                ref.set_up(f[1])
+            elif f[0] == "idle" and revived and int(f[1]) >= 1000:
+                return True
             elif f[0] == "bcast" and superseded and o.startswith("rx=") and len(o) > 3:
                 return True
         return False
@@ -442,7 +633,9 @@ class RwcMode(vlib.Mode):
             if k == "add": outl.append(f"add id={show(f[1])} stream={s(f[2])!r} dest={s(f[3])!r}")
             elif k in ("del",): outl.append(f"delete id={show(f[1])}")
             elif k == "dell": outl.append(f"delete the rule listed at position {f[1]} (mod the number listed) of the implementation's sorted listing, by the id it is listed under")
-            elif k in ("down", "up", "drop"): outl.append(f"{k} dest={s(f[1])!r}")
+            elif k in ("down", "up", "drop"):
+                outl.append(f"{k} dest={s(f[1])!r}" + (" (a port of its own: nothing listens on it while down)" if s(f[1]).startswith("pt") else ""))
+            elif k == "idle": outl.append(f"let {f[1]} ms pass")
             elif k == "await": outl.append(f"await dest={s(f[1])!r} open={f[2]} accepted={f[3]}" + (" slow" if len(f) == 5 else ""))
             elif k == "bcast" and f[2] == "ext": outl.append(f"broadcast topic={s(f[1])!r} from outside (expect {f[4]} receipts)")
             elif k == "bcast": outl.append(f"broadcast topic={s(f[1])!r} as dest={s(f[3])!r} (expect {f[5]} receipts)")
